@@ -2,6 +2,7 @@ package main
 
 import (
 	"fmt"
+	"math/big"
 )
 
 // CheckDef describes how one property is decided.
@@ -130,7 +131,20 @@ func init() {
 		PathModels: true, PathModelSample: 40, Stubs: stubsLevelA, Bounds: boundsArith, Outside: outsideArith, Assumptions: assumeCommon}
 	checkDefs["C03"] = &CheckDef{Prop: "C03", Enable: []string{"C03."},
 		Instances: func(tier string) []Instance {
-			return append(append(arithInstances(tier, "sym"), divIntInstances(tier, "sym")...), quantizeInstances(tier, "sym")...)
+			// (a) trap non-interference and the error contract by self-composition, all leaf operations
+			out := twoRunInstances(tier, "VerifTrapsIndep", "sym", twoModes(tier), nil)
+			// (b) ErrDecimal wrappers (iterative functions: special operands only)
+			out = append(out, twoRunInstances(tier, "VerifErrDecimal", "sym", []string{"half_even"}, []string{"sqrt", "exp", "ln", "log10"})...)
+			out = append(out, inst("VerifErrDecimal", 2, p("Pmin", 1, "regime", 0, "traps", "sym", "full", 0, "mode", "half_even", "op", "pow", "K", 2, "W", 2)))
+			// (c) the error contract on the oracle-checked harnesses at larger digit counts
+			if tier == "thorough" {
+				out = append(out, arithInstances("quick", "sym")...)
+			} else {
+				for _, m := range []string{"half_even", "up"} {
+					out = append(out, inst("VerifRound", 6, p("Pmin", 1, "regime", 0, "traps", "sym", "mode", m, "K", 4, "W", 5)))
+				}
+			}
+			return out
 		},
 		PathModels: true, PathModelSample: 40, Stubs: stubsLevelA, Bounds: boundsArith, Outside: outsideArith, Assumptions: assumeCommon}
 	checkDefs["C09"] = &CheckDef{Prop: "C09", Enable: []string{"C09."},
@@ -145,6 +159,102 @@ func init() {
 		Bounds:        map[string]interface{}{"quick": "dividend K=3 digits, divisor coefficient enumerated 1..9, W=2 (exponent gap up to 4), modes half_even/floor/up", "thorough": "K=4, divisor 1..99, W=3, 9 modes"},
 		Outside:       []string{"divisor coefficients above Kd digits", "exponent gaps beyond 2W (the upscale error path for gaps > 100000 is not exercised)"},
 		RequireCovers: []string{"quoint.finite", "quoint.impossible", "rem.rounded"}}
+	boundsTwoRun := map[string]interface{}{
+		"quick":    "operands of every form (finite, infinite, NaN, sNaN), K=2 digits (division operands 1 digit, enumerated), unary K=3, exponents in [-2,2], Precision 1..K, mode half_even",
+		"thorough": "K=3 (division 2), W=3, modes half_even/floor/up/05up"}
+	checkDefs["C05"] = &CheckDef{Prop: "C05", Enable: []string{"C05."},
+		Instances: func(tier string) []Instance {
+			out := twoRunInstances(tier, "VerifAlias", "zero", twoModes(tier), nil)
+			for _, op := range []string{"modf_integ", "modf_frac", "neg", "abs", "set", "reduce"} {
+				out = append(out, inst("VerifAliasDecimal", 1, p("op", op, "K", 4, "W", 5, "regime", 0)))
+			}
+			return out
+		},
+		PathModels: true, PathModelSample: 15, Stubs: stubsLevelA, Assumptions: assumeCommon, Bounds: boundsTwoRun,
+		Outside: []string{"BigInt-level aliasing (math/big sharing the inline array) is inside the Level-A stub here; the BigInt methods' own alias patterns are checked in C16",
+			"composite functions (Sqrt..Pow)", "larger coefficients / exponent windows"}}
+	checkDefs["C06"] = &CheckDef{Prop: "C06", Enable: []string{"C06.", "W.write"},
+		Instances: func(tier string) []Instance {
+			return twoRunInstances(tier, "VerifDestIndep", "zero", twoModes(tier), nil)
+		},
+		PathModels: true, PathModelSample: 15, Stubs: stubsLevelA, Assumptions: assumeCommon, Bounds: boundsTwoRun,
+		Outside: []string{"history independence is obtained by induction: no operation writes package-level state (write monitor on every store of every explored path), hence the outcome is a function of operands and context alone; it is not explored as sequences",
+			"composite functions (Sqrt..Pow)"}}
+	checkDefs["C18"] = &CheckDef{Prop: "C18", Enable: []string{"W.write"},
+		Instances: func(tier string) []Instance {
+			out := twoRunInstances(tier, "VerifDestIndep", "zero", twoModes(tier), nil)
+			out = append(out, inst("VerifCmp", 2, p("K", 4, "full", 1)), inst("VerifCmpTotal", 2, p("K", 4, "full", 1)))
+			out = append(out, numDigitsInstances("quick")[:6]...)
+			return out
+		},
+		PathModels: false, Stubs: stubsLevelA, Assumptions: append([]string{
+			"reduction: two concurrent calls can race or influence each other only through memory both can reach (shared Context, shared operands, package-level state); a data race needs a write to such memory. The check decides that no feasible path of any encoded method stores into a context, operand or package-level object; under the Go memory model every interleaving is then race-free and each call reads what it reads alone",
+			"math/big does not write its operands and fmt/strconv are goroutine-safe (stub boundary)"}, assumeCommon...), Bounds: boundsTwoRun,
+		Outside: []string{"composite functions (Sqrt..Pow) and their ErrDecimal/WithPrecision plumbing", "Level-B BigInt internals (inner/updateInner through unsafe) are covered by C16's operand-unchanged assertions, not here"}}
+	checkDefs["C08"] = &CheckDef{Prop: "C08", Enable: []string{"C08."},
+		Instances: func(tier string) []Instance {
+			var out []Instance
+			modes := []string{"half_even", "floor"}
+			K, W := 2, 2
+			if tier == "thorough" {
+				modes = allModes
+				K, W = 4, 6
+			}
+			for _, m := range modes {
+				base := p("Pmin", 1, "regime", 0, "traps", "sym", "full", 0, "mode", m, "K", K, "W", W)
+				for _, op := range []string{"add", "sub", "mul", "quo", "quoint", "rem", "cmp", "pow"} {
+					out = append(out, inst("VerifSpecialBinary", 2, base, "op", op))
+				}
+				for _, op := range []string{"abs", "neg", "round", "reduce", "quantize", "rti_value", "rti_exact", "ceil", "floor", "sqrt", "cbrt", "ln", "log10", "exp"} {
+					out = append(out, inst("VerifSpecialUnary", 1, base, "op", op))
+				}
+			}
+			return out
+		},
+		PathModels: true, PathModelSample: 20, Stubs: stubsLevelA, Assumptions: append([]string{"the GDA special-value table transcribed in /verif/harness/h_special.go"}, assumeCommon...),
+		Bounds: map[string]interface{}{"quick": "every combination of {NaN, sNaN, +-Inf, +-0, finite} operands with 2-digit coefficients, exponents in [-2,2], symbolic contexts and trap sets; modes half_even, floor", "thorough": "4 digits, W=6, all modes"},
+		Outside: []string{"cells the statement does not spell out (Pow with an infinite operand, Cbrt(-Inf), sign of a DivisionImpossible NaN) get only the generic consequences",
+			"Sqrt/Cbrt/Ln/Log10/Exp/Pow: only the special-value prologues; operands that enter the numeric core are excluded",
+			"signs of exact-zero sums and products are asserted in C01 (finite operands)"},
+		RequireCovers: []string{"add.nan", "add.inf", "quo.inf", "quo.nan", "round.nan", "ceil.nan", "sqrt.nan"}}
+	checkDefs["C17"] = &CheckDef{Prop: "C17", Enable: []string{"C17."},
+		Instances: func(tier string) []Instance {
+			K := 22
+			if tier == "thorough" {
+				K = 30
+			}
+			out := []Instance{inst("VerifInt64", 5, p("K", K, "W", K)), inst("VerifConstruct", 1, p("K", 4))}
+			for _, o := range []string{"both", "integ", "frac"} {
+				out = append(out, inst("VerifModf", 2, p("outs", o, "K", 6, "W", 8, "regime", 0)))
+			}
+			return out
+		},
+		PathModels: true, PathModelSample: 60, Stubs: stubsLevelA, Assumptions: assumeCommon,
+		Bounds:        map[string]interface{}{"quick": "Int64: coefficients up to 22 digits, exponents -22..22 (each value), zero coefficient with exponent <= 24; Modf: 6 digits, exponents -8..8; constructors: all int64 values, all exponents", "thorough": "30 digits"},
+		Outside:       []string{"Float64 (strconv.ParseFloat) - float code is outside the encoder", "zero coefficients with exponent > 24 (the x10 loop runs Exponent times)"},
+		RequireCovers: []string{"int64.ok", "int64.error"}}
+	checkDefs["C19"] = &CheckDef{Prop: "C19", Enable: []string{"C19.", "P.panic"},
+		Instances: func(tier string) []Instance {
+			out := numDigitsInstances(tier)
+			out = append(out, inst("VerifTableExp10", 1, p("kmax", 200)))
+			K, W := 5, 5
+			modes := []string{"half_even", "floor", "up"}
+			if tier == "thorough" {
+				K, W = 9, 9
+				modes = allModes
+			}
+			out = append(out, inst("VerifReduce", 1, p("op", "dec", "K", 19, "W", W, "regime", 0)))
+			out = append(out, inst("VerifReduce", 1, p("op", "dec", "K", 24, "W", W, "regime", 0)))
+			for _, m := range modes {
+				out = append(out, inst("VerifReduce", 4, p("op", "ctx", "K", K, "W", W, "Pmin", 1, "regime", 0, "traps", "zero", "mode", m)))
+			}
+			return out
+		},
+		PathModels: true, PathModelSample: 40, Assumptions: assumeCommon,
+		Stubs:         append([]string{"NumDigits harness: the REAL table.go code is executed (digit-count stub disabled); digitsLookupTable and pow10LookupTable contents come from the concretely interpreted package init; BigInt.BitLen forks on the bit length; float64(bl)/digitsToBitsRatio is constant-folded per bit length with Go float64 arithmetic"}, stubsLevelA...),
+		Bounds:        map[string]interface{}{"quick": "NumDigits: every integer b with |b| < 2^150, both signs (bit lengths 0..150, table and fallback code); tableExp10(k) for k <= 200; Decimal.Reduce: up to 24 digits (uint64 loop and big loop); Context.Reduce: 5 digits, W=5, modes half_even/floor/up", "thorough": "NumDigits up to 1100 bits; Context.Reduce 9 digits, all modes"},
+		Outside:       []string{"integers beyond the stated bit length"},
+		RequireCovers: []string{"numdigits.negative", "numdigits.beyondtable", "tableexp10.fallback", "reduce.stripped", "reduce.zero"}}
 	checkDefs["C15"] = &CheckDef{Prop: "C15", Enable: []string{"C15."},
 		Instances: func(tier string) []Instance {
 			K := 6
@@ -157,6 +267,76 @@ func init() {
 		Bounds:        map[string]interface{}{"quick": "coefficients up to 6 digits, exponents over the full package range [-100000, 100000], all four forms and signs", "thorough": "16 digits"},
 		Outside:       []string{"coefficients with more digits", "transitivity of CmpTotal is not queried on triples: it follows from CmpTotal being equal to a comparison of keys in a totally ordered key space (asserted pairwise)"},
 		RequireCovers: []string{"cmp.finite", "cmp.infinf"}}
+}
+
+func twoModes(tier string) []string {
+	if tier == "thorough" {
+		return []string{"half_even", "floor", "up", "05up"}
+	}
+	return []string{"half_even"}
+}
+
+var binOps = []string{"add", "sub", "mul", "quo", "quoint", "rem", "cmp"}
+var unOps = []string{"abs", "neg", "round", "reduce", "quantize", "rti_value", "rti_exact", "ceil", "floor"}
+
+// twoRunInstances builds the self-composition instances (alias / dest / traps / errdecimal).
+func twoRunInstances(tier, harness string, traps string, modes []string, extraUnary []string) []Instance {
+	var out []Instance
+	K, W, Kdiv := 2, 2, 1
+	if tier == "thorough" {
+		K, W, Kdiv = 3, 3, 2
+	}
+	for _, m := range modes {
+		base := p("Pmin", 1, "regime", 0, "traps", traps, "full", 0, "mode", m)
+		for _, op := range binOps {
+			if op == "cmp" && harness == "VerifErrDecimal" {
+				continue // ErrDecimal has no Cmp wrapper
+			}
+			k := K
+			if op == "quo" || op == "quoint" || op == "rem" {
+				k = Kdiv
+			}
+			if harness == "VerifAlias" {
+				for _, pat := range []string{"dx", "dy", "xy", "dxy"} {
+					out = append(out, inst(harness, 5, base, "op", op, "pat", pat, "K", k, "W", W))
+				}
+			} else {
+				out = append(out, inst(harness, 5, base, "op", op, "K", k, "W", W))
+			}
+		}
+		for _, op := range append(append([]string{}, unOps...), extraUnary...) {
+			if harness == "VerifAlias" {
+				out = append(out, inst(harness, 2, base, "op", op, "pat", "dx", "K", K+1, "W", W))
+			} else {
+				out = append(out, inst(harness, 2, base, "op", op, "K", K+1, "W", W))
+			}
+		}
+	}
+	return out
+}
+
+func pow2(n int) string {
+	v := new(big.Int).Lsh(big.NewInt(1), uint(n))
+	return v.String()
+}
+
+func numDigitsInstances(tier string) []Instance {
+	// bit-length slices [lo, hi) for both signs; the table ends at 128 bits
+	edges := []int{0, 40, 80, 110, 127, 129, 132, 150}
+	if tier == "thorough" {
+		edges = []int{0, 40, 80, 110, 127, 129, 132, 150, 200, 300, 500, 800, 1100}
+	}
+	var out []Instance
+	for i := 0; i+1 < len(edges); i++ {
+		lo, hi := pow2(edges[i]), pow2(edges[i+1])
+		if edges[i] == 0 {
+			lo = "0"
+		}
+		md := edges[i+1]/3 + 5
+		out = append(out, inst("VerifNumDigitsReal", 3, p("realNumDigits", 1, "lo", lo, "hi", hi, "maxDigits", md)))
+		out = append(out, inst("VerifNumDigitsReal", 3, p("realNumDigits", 1, "lo", "-"+hi, "hi", "-"+lo, "maxDigits", md)))
+	}
+	return out
 }
 
 func divIntInstances(tier string, traps string) []Instance {
